@@ -235,6 +235,8 @@ where
     entity_identifiers: &'a mut (*mut entity::Identifier, usize),
     components: &'a mut [(*mut u8, usize)],
     length: usize,
+    /// Set once every component of the row has been pushed into its column.
+    complete: &'a mut bool,
 }
 
 impl<'a, 'de, R> DeserializeRow<'a, 'de, R>
@@ -250,6 +252,7 @@ where
         entity_identifiers: &'a mut (*mut entity::Identifier, usize),
         components: &'a mut [(*mut u8, usize)],
         length: usize,
+        complete: &'a mut bool,
     ) -> Self {
         Self {
             lifetime: PhantomData,
@@ -259,6 +262,7 @@ where
             entity_identifiers,
             components,
             length,
+            complete,
         }
     }
 }
@@ -334,6 +338,8 @@ where
                         self.0.identifier,
                     )
                 }?;
+
+                *self.0.complete = true;
 
                 Ok(())
             }
@@ -416,6 +422,7 @@ where
                 let mut vec_length = 0;
 
                 for i in 0..self.0.length {
+                    let mut row_complete = false;
                     let result = seq.next_element_seed(
                         // SAFETY: `entity_identifiers` and `components` both contain the raw parts
                         // for valid `Vec`s of length `vec_length`.
@@ -425,10 +432,17 @@ where
                                 &mut entity_identifiers,
                                 &mut components,
                                 vec_length,
+                                &mut row_complete,
                             )
                         },
                     );
                     if let Err(error) = result {
+                        // The error may have been raised after the row was completely pushed (for
+                        // example when the deserializer finds trailing data in the row). A row
+                        // that failed part way through has already been removed again.
+                        if row_complete {
+                            vec_length += 1;
+                        }
                         drop(
                             // SAFETY: `entity_identifiers` contains the raw parts for a valid
                             // `Vec<entity::Identifier>` of size `vec_length`.
@@ -529,7 +543,9 @@ impl<'de, C> DeserializeSeed<'de> for DeserializeColumn<'de, C>
 where
     C: Component + Deserialize<'de>,
 {
-    type Value = (*mut C, usize);
+    // The column is returned as an owned `Vec`, so that it is dropped properly if the deserializer
+    // reports an error after the visitor has returned.
+    type Value = Vec<C>;
 
     fn deserialize<D>(self, deserializer: D) -> Result<Self::Value, D::Error>
     where
@@ -543,7 +559,7 @@ where
         where
             C: Component + Deserialize<'de>,
         {
-            type Value = (*mut C, usize);
+            type Value = Vec<C>;
 
             fn expecting(&self, formatter: &mut fmt::Formatter) -> fmt::Result {
                 write!(
@@ -567,9 +583,7 @@ where
                     );
                 }
 
-                let mut v = ManuallyDrop::new(v);
-
-                Ok((v.as_mut_ptr(), v.capacity()))
+                Ok(v)
             }
         }
 
@@ -623,9 +637,14 @@ where
             where
                 A: SeqAccess<'de>,
             {
-                let entity_identifiers = seq
-                    .next_element_seed(DeserializeColumn::new(self.0.length))?
-                    .ok_or_else(|| de::Error::invalid_length(0, &self))?;
+                let mut entity_identifiers_vec = ManuallyDrop::new(
+                    seq.next_element_seed(DeserializeColumn::new(self.0.length))?
+                        .ok_or_else(|| de::Error::invalid_length(0, &self))?,
+                );
+                let entity_identifiers = (
+                    entity_identifiers_vec.as_mut_ptr(),
+                    entity_identifiers_vec.capacity(),
+                );
 
                 let mut components = Vec::with_capacity(self.0.identifier.count());
                 let result =
